@@ -102,6 +102,11 @@ def rest(ctx, chk, zvt, crates):
                     zero_t = dict((v, tb) for v, tb in t["targets"]).get(0)
                     # (block, constant, edge taken when header[2] == constant, edge taken otherwise)
                     marks.append((i, k[1], t["else"], zero_t) if c[1] == "Eq" else (i, k[1], zero_t, t["else"]))
+            elif len(t["targets"]) == 1 and t["targets"][0][1] != t["else"] and \
+                    any(x[0] == "call" and x[1] in INDEX and x[2][1] == ("const", 2) for x in walk(c)) and \
+                    not any(x[0] == "bin" for x in walk(c)):
+                # `match header[2] { 0xff => .., other => .. }`: a switch on the byte itself
+                marks.append((i, t["targets"][0][0], t["targets"][0][1], t["else"]))
     if chk.require(len(marks) == 1, "C04-d/marker-test", "read_packet", "expected one test of header[2], found %d" % len(marks), "", b.sp()):
         mbb, mval, mtrue, mfalse = marks[0]
         chk.require(mval == MARKER, "C04-d/marker-constant", "read_packet",
